@@ -414,7 +414,7 @@ class Timeline:
             if e.kind == "cb" and int(e.f[2]) == a and e.f[3] != "unsol": return True
         # a time synchronisation that goes on with its WRITE of g50 accepted the first response
         direct = any(x.kind == "info" and x.t == t and x.f[3] == "start" and x.f[4] == "time-sync" and x.f[5] == "2"
-                     for x in self.stream0[pos + 1:pos + 8])
+                     for x in self.stream0[max(0, pos - 8):pos + 8])
         if not direct:
             for b in self.tx_at(t):
                 if len(b) >= 6 and b[1] == 2 and b[2] == 0x32 and b[3] in (1, 3) and b[4] == 7 and b[5] == 1:
